@@ -18,7 +18,7 @@ from typing import Dict, List, Optional, Set, Tuple
 
 from ..cfg import cfg_of
 from ..flow import defuse, names_in, str_consts_in
-from ..guards import path_conditions, src
+from ..guards import path_conditions, rejects, src
 from ..index import AnalysisError, FuncInfo, Index, call_name, dotted, enclosing_stmt, parents, walk_no_nested
 from ..report import Results
 
@@ -176,9 +176,10 @@ def run(res: Results, idx: Index, tier: str) -> None:
     flow = next((c.methods["lower"] for c in fm.classes.values() if "lower" in c.methods), None)
     key = f"{LAX}fori_loop.py::lower::negative-trip-count"
     if flow is not None:
-        ng = [n for n in walk_no_nested(flow.node) if isinstance(n, ast.If) and any(isinstance(c, ast.Compare) and isinstance(c.ops[0], ast.Lt) and "trip_count" in names_in(c) for c in ast.walk(n.test)) and any(isinstance(s, ast.Raise) for s in n.body)]
+        ng = [n for n in walk_no_nested(flow.node) if isinstance(n, ast.If) and any(isinstance(c, ast.Compare) and isinstance(c.ops[0], ast.Lt) and "trip_count" in names_in(c) for c in ast.walk(n.test)) and any(isinstance(s, ast.Raise) for s in n.body)]  # (lowering-side check; the binding-side clamp below is the decisive one)
         bind = next((f for f in fm.funcs.values() if f.name == "_fori_loop_binding"), None)
-        clamp = bind is not None and any(isinstance(n, ast.If) and any(isinstance(c, ast.Compare) and isinstance(c.ops[0], ast.Lt) and "trip_count" in names_in(c) for c in ast.walk(n.test)) for n in walk_no_nested(bind.node))
+        clamp = bind is not None and any(isinstance(n, ast.If) and rejects(n.test, lambda t: isinstance(t, ast.Compare) and isinstance(t.ops[0], ast.Lt) and "trip_count" in names_in(t))
+                                         and any(isinstance(a, ast.Assign) and isinstance(a.value, ast.Constant) and a.value.value == 0 for a in n.body) for n in walk_no_nested(bind.node))
         if ng or clamp:
             res.ok("R-C06b", f"{LAX}fori_loop.py:{(ng[0].lineno if ng else bind.node.lineno)}", key, "negative trip counts are clamped to zero at binding time / rejected at lowering", flow.qualname)
         else:
@@ -188,7 +189,7 @@ def run(res: Results, idx: Index, tier: str) -> None:
     if wlow is None:
         raise AnalysisError("while_loop plugin lower() not found")
     key = f"{LAX}while_loop.py::lower::missing-jaxprs"
-    mg = [n for n in walk_no_nested(wlow.node) if isinstance(n, ast.If) and any(isinstance(s, ast.Raise) for s in n.body) and any(isinstance(c, ast.Compare) and isinstance(c.ops[0], ast.Is) for c in ast.walk(n.test))]
+    mg = [n for n in walk_no_nested(wlow.node) if isinstance(n, ast.If) and any(isinstance(s, ast.Raise) for s in n.body) and rejects(n.test, lambda t: isinstance(t, ast.Compare) and isinstance(t.ops[0], ast.Is) and isinstance(t.comparators[0], ast.Constant) and t.comparators[0].value is None)]
     res.add("R-C06b", "OK" if mg else "VIOLATION", f"{LAX}while_loop.py:{(mg[0].lineno if mg else wlow.node.lineno)}", key, "missing cond/body jaxpr raises" if mg else "a while_loop without cond/body jaxpr is not rejected", wlow.qualname)
 
     # ---------------- R-C06c
